@@ -1050,6 +1050,18 @@ def guards():
                 return None
         return None
     rows = []
+    locals_stack = []
+
+    def inline_(e_, depth=0):
+        import copy as _copy
+        la = locals_stack[-1] if locals_stack else {}
+
+        class T(ast.NodeTransformer):
+            def visit_Name(s_, n_):
+                if n_.id in la and depth < 3:
+                    return ast.parse(inline_(la[n_.id], depth + 1), mode="eval").body
+                return n_
+        return ast.unparse(ast.fix_missing_locations(T().visit(_copy.deepcopy(e_))))
     for rel in GUARD_FILES:
         path = os.path.join(SRC, rel)
         if not os.path.exists(path):
@@ -1058,8 +1070,29 @@ def guards():
 
         def visit(node, stack, negated=False):
             for ch in ast.iter_child_nodes(node):
-                if isinstance(ch, (ast.ClassDef, ast.FunctionDef)):
+                if isinstance(ch, ast.ClassDef):
                     visit(ch, stack + [ch.name])
+                    continue
+                if isinstance(ch, ast.FunctionDef):
+                    # the row is keyed by class (or module) only, so that moving a test into a helper of the same class does not change it;
+                    # single-assignment locals of the function are written out
+                    cnt = {}
+                    for a_ in ast.walk(ch):
+                        if isinstance(a_, ast.Assign):
+                            for t_ in a_.targets:
+                                for nm_ in ast.walk(t_):
+                                    if isinstance(nm_, ast.Name) and isinstance(nm_.ctx, ast.Store):
+                                        cnt[nm_.id] = cnt.get(nm_.id, 0) + 1
+                        elif isinstance(a_, (ast.AugAssign, ast.For)):
+                            for nm_ in ast.walk(a_.target):
+                                if isinstance(nm_, ast.Name):
+                                    cnt[nm_.id] = cnt.get(nm_.id, 0) + 2
+                    argn = {x.arg for x in ch.args.args}
+                    locals_stack.append({a_.targets[0].id: a_.value for a_ in ast.walk(ch) if isinstance(a_, ast.Assign) and len(a_.targets) == 1
+                                         and isinstance(a_.targets[0], ast.Name) and cnt.get(a_.targets[0].id) == 1 and a_.targets[0].id not in argn
+                                         and not isinstance(a_.value, ast.Call)})
+                    visit(ch, stack)
+                    locals_stack.pop()
                     continue
                 if isinstance(ch, ast.UnaryOp) and isinstance(ch.op, ast.Not) and isinstance(ch.operand, ast.Compare):
                     handle(ch.operand, stack, True)
@@ -1070,7 +1103,22 @@ def guards():
 
         def handle(c, stack, negated):
             items = [c.left] + list(c.comparators)
-            for (l, op, r) in zip(items, c.ops, items[1:]):
+            pairs = []
+            for (l0, op, r0) in zip(items, c.ops, items[1:]):
+                # locals written out; a conditional expression choosing between literals (`lo = -0.6 if z == 0 else -0.2`) gives one row
+                # per literal, and its test is visited like any other comparison
+                la_ = [ast.parse(inline_(x), mode="eval").body for x in (l0, r0)]
+                opts = []
+                for x in la_:
+                    if isinstance(x, ast.IfExp):
+                        visit(ast.Expr(value=x.test), stack)
+                        opts.append([x.body, x.orelse])
+                    else:
+                        opts.append([x])
+                for a_ in opts[0]:
+                    for b_ in opts[1]:
+                        pairs.append((a_, op, b_))
+            for (l, op, r) in pairs:
                 if type(op) not in flip:
                     continue
                 ln, rn = num(l), num(r)
@@ -1081,9 +1129,9 @@ def guards():
                 opc = type(op)
                 if negated:
                     opc = neg[opc]
-                txt = ast.unparse(l)
-                if txt.startswith("len(") or "len(" in txt:
-                    continue
+                txt = inline_(l)
+                if re.search(r"len\(|\.size\b|\.shape\b|\.ndim\b", txt):
+                    continue          # container-size tests are not thresholds of the physics
                 rows.append((f"{rel}:{'.'.join(stack)}", f"{txt} {sym[opc]} {rn!r}"))
             for sub in items:
                 visit(sub, stack)
